@@ -85,6 +85,7 @@ def runCase (line : String) : String :=
   let leak := num (field toks "leak" "0")
   let rec_ := num (field toks "rec" "0")
   let block := field toks "block" "0"
+  let nest := field toks "nest" "0"
   let dout := field toks "dout" "?"
   let dbind := field toks "dbind" "-"
   let fname := if form = "fn" then "f" else "m"
@@ -158,7 +159,8 @@ def runCase (line : String) : String :=
   -- joined the caller's task group
   let spawnOut := if !spawn then "" else
     if w.spawns.all (· == cw.1.other) then ";pending;joined" else ";blocked;joined"
-  let where_ := if !ran then "-" else (if isAsyn then "other" else "loop") ++ (if block = "1" then ",beat" else "") ++ spawnOut
+  let where_ := if !ran then "-" else (if isAsyn then "other" else "loop") ++ (if block = "1" then ",beat" else "") ++
+    (if nest = "1" && isAsyn then "+other" else "") ++ spawnOut
   let posToks := (if form = "fn" then [] else ["self"]) ++ (if pos = "-" then [] else (pos.splitOn ",").map showVal)
   let posRepr := if posToks.isEmpty then "-" else "(" ++ ",".intercalate posToks ++ ")"
   let kwRepr := if kw = "-" then "-" else
